@@ -217,6 +217,7 @@ pub fn exec_more(t: &[&str]) -> R {
         "o.fresh" => {
             let (b, what, n) = (be(1)?, *t.get(2).ok_or_else(bad)?, t.get(3).ok_or_else(bad)?.parse::<usize>().map_err(|_| bad())?);
             let mut seen = std::collections::HashSet::new();
+            let mut seen_salt = std::collections::HashSet::new();
             let key = [7u8; 32];
             let (psk, ppk) = if what == "seal" { crate::gen_paserk::pke_pair(b) } else { (vec![], vec![]) };
             let _ = psk;
@@ -255,6 +256,15 @@ pub fn exec_more(t: &[&str]) -> R {
                         _ => return Err(bad()),
                     }
                 });
+                // password wrapping draws two values: the salt and the nonce must *each* be fresh (not merely the pair)
+                if what == "pw" {
+                    let (sl, nl) = if b.version() % 2 == 1 { (32, 16) } else { (16, 24) };
+                    let salt = field[..sl].to_vec();
+                    let nonce = field[field.len() - nl..].to_vec();
+                    if !seen_salt.insert(salt) { return Ok(format!("distinct=0 n={n} repeated=salt")); }
+                    if !seen.insert(nonce) { return Ok(format!("distinct=0 n={n} repeated=nonce")); }
+                    continue;
+                }
                 if !seen.insert(field) {
                     return Ok(format!("distinct=0 n={n}"));
                 }
